@@ -10,17 +10,20 @@
 package main
 
 import (
+	"bufio"
 	"context"
 	"errors"
 	"flag"
 	"io"
 	"log"
 	"os"
+	"os/exec"
 	"path/filepath"
 	"runtime"
 	"strings"
 	"sync"
 	"sync/atomic"
+	"time"
 
 	"github.com/feichai0017/NoKV/pb"
 	"github.com/feichai0017/NoKV/pd/core"
@@ -28,6 +31,8 @@ import (
 	pdstorage "github.com/feichai0017/NoKV/pd/storage"
 	"github.com/feichai0017/NoKV/pd/tso"
 	"github.com/feichai0017/NoKV/vfs"
+	"google.golang.org/grpc"
+	"google.golang.org/grpc/credentials/insecure"
 
 	"verif/harness/internal/gate"
 	"verif/harness/internal/vt"
@@ -43,6 +48,10 @@ type Schedule struct {
 	Reqs  []Req `json:"reqs"`  // request i+1 = Reqs[i]
 	Steps []int `json:"steps"` // thread to release, one gate-to-gate step each; then the crash
 	Free  bool  `json:"free"`  // no gates: the requests run as free goroutines, then a clean restart
+	// Blackbox: the real `nokv pd` binary is started on a work directory, the requests are sent
+	// over gRPC concurrently, the process is killed (SIGKILL) and started again, Rounds times.
+	Blackbox bool `json:"blackbox"`
+	Rounds   int  `json:"rounds"`
 }
 
 var errDead = errors.New("pd process is dead")
@@ -199,7 +208,78 @@ func run(base string, sc *Schedule, w *vt.Writer) {
 	_ = store2.Close()
 }
 
+// runBlackbox exercises cmd/nokv/pd.go itself (flag parsing, Load, ResolveAllocatorStarts,
+// allocator construction) through the built binary.
+func runBlackbox(base, nokv string, sc *Schedule, w *vt.Writer) {
+	dir, err := os.MkdirTemp(base, "pdbb-")
+	if err != nil {
+		vt.Fatal("%v", err)
+	}
+	defer os.RemoveAll(dir)
+	emit := func(ev vt.Ev) { ev["s"] = sc.ID; w.Emit(ev) }
+	t := 0
+	for round := 0; round < sc.Rounds; round++ {
+		cmd := exec.Command(nokv, "pd", "-addr", "127.0.0.1:0", "-workdir", filepath.Join(dir, "wd"))
+		out, _ := cmd.StdoutPipe()
+		cmd.Stderr = os.Stderr
+		if err := cmd.Start(); err != nil {
+			vt.Fatal("start nokv pd: %v", err)
+		}
+		addr := ""
+		rd := bufio.NewReader(out)
+		for addr == "" {
+			line, err := rd.ReadString('\n')
+			if i := strings.Index(line, "listening on "); i >= 0 {
+				addr = strings.TrimSpace(line[i+len("listening on "):])
+			}
+			if err != nil && addr == "" {
+				vt.Fatal("nokv pd did not report its address: %v", err)
+			}
+		}
+		go io.Copy(io.Discard, rd)
+		conn, err := grpc.NewClient(addr, grpc.WithTransportCredentials(insecure.NewCredentials()))
+		if err != nil {
+			vt.Fatal("dial: %v", err)
+		}
+		cli := pb.NewPDClient(conn)
+		if round > 0 {
+			emit(vt.Ev{"e": "Restart"})
+		}
+		var wg sync.WaitGroup
+		for _, r := range sc.Reqs {
+			t++
+			t, r := t, r
+			wg.Add(1)
+			go func() {
+				defer wg.Done()
+				ctx, cancel := context.WithTimeout(context.Background(), 20*time.Second)
+				defer cancel()
+				emit(vt.Ev{"e": "Call", "t": t, "kind": r.Kind, "n": r.N})
+				var first, n uint64
+				var err error
+				if r.Kind == "ts" {
+					var resp *pb.TsoResponse
+					if resp, err = cli.Tso(ctx, &pb.TsoRequest{Count: r.N}); err == nil {
+						first, n = resp.GetTimestamp(), resp.GetCount()
+					}
+				} else {
+					var resp *pb.AllocIDResponse
+					if resp, err = cli.AllocID(ctx, &pb.AllocIDRequest{Count: r.N}); err == nil {
+						first, n = resp.GetFirstId(), resp.GetCount()
+					}
+				}
+				emit(vt.Ev{"e": "Reply", "t": t, "kind": r.Kind, "first": first, "n": n, "ok": err == nil})
+			}()
+		}
+		wg.Wait()
+		_ = conn.Close()
+		_ = cmd.Process.Kill()
+		_ = cmd.Wait()
+	}
+}
+
 func main() {
+	nokv := flag.String("nokv", "", "path of the built nokv binary (blackbox schedules)")
 	in := flag.String("in", "", "schedules (ndjson)")
 	out := flag.String("out", "", "trace (ndjson)")
 	dir := flag.String("dir", os.TempDir(), "scratch directory")
@@ -215,6 +295,12 @@ func main() {
 		vt.Fatal("%v", err)
 	}
 	for i := range scheds {
+		if scheds[i].Blackbox {
+			runtime.GOMAXPROCS(4)
+			runBlackbox(*dir, *nokv, &scheds[i], w)
+			runtime.GOMAXPROCS(1)
+			continue
+		}
 		run(*dir, &scheds[i], w)
 	}
 	if err := w.Close(); err != nil {
